@@ -237,12 +237,12 @@ def shard(args):
     masks2 = list(itertools.product(MASKS if thorough else ("none", "str", "width", "all"), repeat=2))
     for second in step_choices(U, B, n1):
         n2 = run_program(acc, U, B, [first, second], masks2)
-        if thorough and first_index % 4 == 0:
+        if thorough and first_index % 8 == 0:
             # depth 3 over a reduced alphabet and the two extreme masks per boundary
             masks3 = list(itertools.product(("none", "all"), repeat=3))
             for third in step_choices(U, B, min(n2, 6), reduced=True):
-                if third[0] == "b" and third[2][0] < 3 and third[2][1] < 3:
-                    continue  # seeds-only binary steps were covered at depth 1/2
+                if third[0] == "b" and (n2 - 1) not in third[2]:
+                    continue  # binary third steps always involve the newest value (the rest was covered at depth 1/2)
                 run_program(acc, U, B, [first, second, third], masks3)
     return acc.export()
 
@@ -315,7 +315,7 @@ def run(ctx):
     rep.merge(acc, "mutation_attempts")
     rep.validated = rep.n
     rep.rule = (
-        "all straight-line programs of length 1 and 2 (thorough: length 3 over a reduced alphabet for a quarter of the first steps) over %d unary "
+        "all straight-line programs of length 1 and 2 (thorough: length 3 over a reduced alphabet for an eighth of the first steps) over %d unary "
         "and %d binary operation instances with every choice of pool operands (3 seeds + up to 3 results per step), each executed once as "
         "reference (observe everything after every step) and once per observation schedule (6 masks per step boundary; 2 per boundary at "
         "length 3); evaluations = executions; states = distinct final pools; plus %d in-place mutation attempts"
